@@ -241,7 +241,8 @@ class Sample:
             elif len(ref) > len(alt) and len(alt) - off == 0:
                 return off + pos, f"del{self.gene[off + pos : pos + len(ref)]}"
             elif len(ref) < len(alt) and len(ref) - off == 0:
-                return off + pos, f"ins{alt[off:]}"
+                # Database insertions are located at the base preceding the insertion
+                return off + pos - 1, f"ins{alt[off:]}"
             else:
                 log.trace(f"[sam] ignoring {pos}: {ref}->{alt}")
                 return pos, None
@@ -275,7 +276,8 @@ class Sample:
                     if op == "_" or op is None:  # reference or unsupported allele
                         continue
                     muts[pos, op] += [(40, 40)] * 10
-                    norm[pos] = norm[pos][:-10]
+                    if not op.startswith("ins"):  # insertions keep the reference base
+                        norm[pos] = norm[pos][:-10]
                     dump_arr[pos] = op
 
                 # Handle multi-SNPs
@@ -605,7 +607,8 @@ class Sample:
             self.profile,
             self,
             {p: {m: v for m, v in coverage[p].items() if len(v) > 0} for p in coverage},
-            self._indel_sites,
+            # VCF indels are taken from the records (there is nothing to realign)
+            None if self.kind == "vcf" else self._indel_sites,
             self._dump_cn,
         )
         """Sample coverage data."""
